@@ -40,12 +40,12 @@ var NumPool = []string{"0", "-0", "1", "-1", "10", "123", "0.5", "-0.5", "1e5", 
 	"9223372036854775807", "9223372036854775808", "-9223372036854775808", "-9223372036854775809", "18446744073709551615", "18446744073709551616", "999999999999999999", "1000000000000000000", "9999999999999999999", "99999999999999999999",
 	"2.2250738585072011e-308", "2.2250738585072014e-308", "1e23", "8.5e22", "1e22", "1e-22", "123456789e-5", "0.1", "0.3", "3.14159", "6.02214076e23"}
 var BadNum = []string{"01", "-", "1.", ".5", "1e", "1e+", "-01", "+1", "1.e5", "0x10", "1.5.3", "--1", "1ee5", "00", "-0.", "0e", "1E-", "-.5", "1e1.5", "Infinity", "NaN", "-Infinity"}
-var StrPool = []string{`""`, `"a"`, `"abc def"`, `"\n"`, `"\""`, `"\\"`, `"\/"`, `"\b\f\n\r\t"`, `"A"`, `"é"`, `"😀"`, `"\ud800"`, `"\udc00"`, `"\ud800\ud800"`, `"\ud800A"`, `"\ud800x"`, `"􏿿"`,
-	"\"\xff\"", "\"\xc3\"", "\"\xe2\x82\"", "\"é\"", "\"😀\"", "\"\xed\xa0\x80\"", `"[{]}"`, `"a\"]"`, `"\\\\"`, `"\\"]`, "\"\x7f\"", `"\u0000"`, `"￿"`, `"￾"`, `"�"`,
-	`"aéb"`, `"long string without any escapes at all, just plain ascii"`, `"tab\there"`, "\"mixed \xf0\x9f\x98\x80 \\ud83d\\ude00 \xff end\""}
+var StrPool = []string{`""`, `"a"`, `"abc def"`, `"\n"`, `"\""`, `"\\"`, `"\/"`, `"\b\f\n\r\t"`, `"\u0041"`, `"\u00e9"`, `"\ud83d\ude00"`, `"\ud800"`, `"\udc00"`, `"\ud800\ud800"`, `"\ud800\u0041"`, `"\ud800x"`, `"\uDBFF\uDFFF"`,
+	"\"\xff\"", "\"\xc3\"", "\"\xe2\x82\"", "\"\xc3\xa9\"", "\"\xf0\x9f\x98\x80\"", "\"\xed\xa0\x80\"", `"[{]}"`, `"a\"]"`, `"\\\\"`, `"\\"]`, "\"\x7f\"", `"\u0000"`, `"\uffff"`, `"\uFFFE"`, `"\ufffd"`,
+	`"a\u00e9b"`, `"long string without any escapes at all, just plain ascii"`, `"tab\there"`, "\"mixed \xf0\x9f\x98\x80 \\ud83d\\ude00 \xff end\""}
 var BadStr = []string{`"`, `"abc`, "\"\x01\"", "\"\n\"", `"\x"`, `"\u12"`, `"\u12G4"`, `"\'"`, `"\`, `"\u"`, "\"\t\"", `"\ud800\u12"`, `"\ud800\`, `"\ud800\uZZZZ"`, `'a'`, `"\U00e9"`, "\"a\x1fb\"", "\"\x00\""}
 var WsPool = []string{"", "", "", " ", "\t", "\n", "\r", "  ", " \n\t\r "}
-var BadWs = []string{"\f", "\v", "\x00", "\xa0", "/**/", "\xef\xbb\xbf", "\x85", " "}
+var BadWs = []string{"\f", "\v", "\x00", "\xa0", "/**/", "\xef\xbb\xbf", "\x85", "\xe2\x80\xa8"}
 
 // Gen is the seeded recursive document generator of family W3.
 type Gen struct {
